@@ -21,6 +21,7 @@ import (
 	"math"
 	"reflect"
 	"regexp"
+	"sort"
 	"time"
 )
 
@@ -232,8 +233,18 @@ func reifyMap(opts *options, to reflect.Value, from *Config, validators []valida
 		return nil
 	}
 
-	for k, value := range fields {
+	// The entries are converted and stored in the order of their names: what a
+	// failing call has stored in the caller's map already does not depend on
+	// the order the dictionary is enumerated in.
+	names := make([]string, 0, len(fields))
+	for k := range fields {
 		verifKeyOrder("reifyMap", k)
+		names = append(names, k)
+	}
+	sort.Strings(names)
+
+	for _, k := range names {
+		value := fields[k]
 		opts.activeFields = newFieldSet(parentFields)
 		key := reflect.ValueOf(k).Convert(to.Type().Key())
 		if err := tryValidate(key); err != nil {
